@@ -207,6 +207,20 @@ def check(props, pid, tier, seed, no_bounded=False):
             in_ledger = bool(led) and o['oid'] in led['discharged']
             failed_ob.append(dict(o, fid=r['fid'], in_ledger=in_ledger))
 
+    # ---------------------------------------------------------------- static obligations on the AST
+    static_failed = []
+    if plan.static is not None:
+        try:
+            for oid, ok, detail in plan.static(REPO):
+                n_ob += 1
+                backends['ast-static'] = backends.get('ast-static', 0) + 1
+                if ok:
+                    n_dis += 1
+                else:
+                    static_failed.append((oid, detail))
+        except Exception:
+            crashes.append("static obligations crashed: " + traceback.format_exc()[-1500:])
+
     # ---------------------------------------------------------------- bounded part (monitors on the real code)
     bres = None
     if plan.bounded is not None and not no_bounded:
@@ -268,6 +282,15 @@ def check(props, pid, tier, seed, no_bounded=False):
             violations.append((o['oid'], path, True))
         else:
             undecided.append(dict(fid=o['fid'], reason=f"obligation {o['status']}", detail=o['oid']))
+
+    for oid, detail in static_failed:
+        if match_known(oid) is not None:
+            known_lines.append(f"KNOWN-FINDING: property={pid} {oid}")
+            continue
+        path = write_replay(pid, oid, dict(property=pid, obligation=oid, replayable=False,
+                                           verdict='static obligation on the source text of /repo fails; the offending AST nodes are listed',
+                                           solver_output=str(detail)))
+        violations.append((oid, path, not any(not nm for _, _, nm in violations)))
 
     # ---------------------------------------------------------------- evidence
     wall = round(time.time() - t0, 2)
